@@ -63,3 +63,58 @@ Theorem C16_write_side_sticky_failure : forall ops w0,
   c16w_monitor (steps_of ops (fst (run_wops ops w0))) (dest_log (w_dest (snd (run_wops ops w0)))) = true.
 Proof. exact c16w_monitor_fresh. Qed.
 Print Assumptions C16_write_side_sticky_failure.
+
+(* ------------------------------------------------------------------ stream level *)
+Require Import ReaderAux ReaderMoreProofs.
+
+(* C16, read side, at stream level ([cut_monitor], coq/model/Reader.v): the Reader.wire
+   bytes of a frame sequence the spec accepts completely are cut after ANY number
+   [cut] of bytes, the transport then reports io.EOF or fails ([t]), under every
+   chunking of the bytes that do arrive and all caller buffer sizes: the canonical
+   NextFrame / read-to-EOF loop delivers the frames wholly before the cut exactly
+   as the spec says, reports nothing of the cut frame as a message and hands
+   nothing of it to the control callback, and its final error is not a clean
+   io.EOF — except when the cut falls on a frame boundary, or inside a header,
+   outside a message. The fuel bound excludes the out-of-fuel artefact
+   wherever the monitor asks for a definite error. *)
+Theorem C16_cut_stream : forall c fs cut t s bufs fuel,
+  wf_cfg c -> Forall wf_sframe fs -> sr_out (spec_run c 0 None [] fs) = OClean ->
+  (cut <= length (Reader.wire fs))%nat ->
+  wf_src s -> tl s = t -> flat s = firstn cut (Reader.wire fs) -> (cut + 2 <= fuel)%nat ->
+  let d := drive fuel bufs (new_reader s (c_state c) false (c_check_utf8 c) (c_max c) (c_ext c) CbReadAll) in
+  cut_monitor c true fs (N.of_nat cut) (match t with TFail => true | TEOF => false end) (dr_events d) (dr_err d) = true.
+Proof. exact cut_stream. Qed.
+Print Assumptions C16_cut_stream.
+
+(* the same holds for EVERY frame sequence, valid or not: when a frame wholly
+   before the cut breaks a rule, the loop stops there with the spec's error class *)
+Theorem C16_cut_stream_any : forall c fs cut t s bufs fuel,
+  wf_cfg c -> Forall wf_sframe fs -> (cut <= length (Reader.wire fs))%nat ->
+  wf_src s -> tl s = t -> flat s = firstn cut (Reader.wire fs) -> (cut + 2 <= fuel)%nat ->
+  let d := drive fuel bufs (new_reader s (c_state c) false (c_check_utf8 c) (c_max c) (c_ext c) CbReadAll) in
+  cut_monitor c true fs (N.of_nat cut) (match t with TFail => true | TEOF => false end) (dr_events d) (dr_err d) = true.
+Proof. exact cut_stream_any. Qed.
+Print Assumptions C16_cut_stream_any.
+
+Example C16_cut_stream_nonvacuous :
+  let fs := [mkSF false 0 1 None [97; 98]; mkSF true 0 9 None [1; 2; 3; 4; 5]; mkSF true 0 0 None [99];
+             mkSF true 0 2 None [1; 2; 3]] in
+  let c := mkCfg 2 false 0 false in
+  let run (cut : nat) (t : tail) :=
+    drive (cut + 2) [3] (new_reader (mkSrc (chunk_by [3; 1; 4] (firstn cut (Reader.wire fs))) t)
+                                    (c_state c) false (c_check_utf8 c) (c_max c) (c_ext c) CbReadAll) in
+  let done := [mkEv 9 [1; 2; 3; 4; 5] true false; mkEv 1 [97; 98; 99] false false] in
+  sr_out (spec_run c 0 None [] fs) = OClean /\ length (Reader.wire fs) = 19%nat /\
+  (* cut inside the payload of the last frame *)
+  dr_events (run 18%nat TEOF) = done /\ dr_err (run 18%nat TEOF) = RIo EUnexpected /\
+  cut_monitor c true fs 18 false (dr_events (run 18%nat TEOF)) (dr_err (run 18%nat TEOF)) = true /\
+  (* the monitor refuses a shortened message, a lost event and a clean end there *)
+  cut_monitor c true fs 18 false (done ++ [mkEv 2 [1; 2] false false]) (RIo EUnexpected) = false /\
+  cut_monitor c true fs 18 false [mkEv 1 [97; 98; 99] false false] (RIo EUnexpected) = false /\
+  cut_monitor c true fs 18 false done (RIo EEOF) = false /\
+  (* cut at the frame boundary before it: clean EOF, but not with a failing transport *)
+  dr_err (run 14%nat TEOF) = RIo EEOF /\ dr_err (run 14%nat TFail) = RIo EFail /\
+  cut_monitor c true fs 14 true done (RIo EEOF) = false /\
+  (* cut inside the message: the ping was delivered, the message was not *)
+  dr_events (run 11%nat TFail) = [mkEv 9 [1; 2; 3; 4; 5] true false] /\ dr_err (run 11%nat TFail) = RIo EFail.
+Proof. vm_compute. repeat split; reflexivity. Qed.
